@@ -192,7 +192,7 @@ func canonCalls(ds []Deny) string {
 var gw *gateway
 
 // classes recorded as `finding:` in known_findings.txt: one shrunk witness per run is reported
-var knownClass = map[string]bool{"c02.record-not-utf8": true}
+var knownClass = map[string]bool{}
 
 type verdict struct {
 	ok      bool
